@@ -232,12 +232,84 @@ def gen_cases(seed: int, tier: str):
         perms = list(itertools.permutations(range(n)))
         init = [variant(rng, rng.choice(bases), rng.choice(perms), 0) for _ in range(k)]
         cases.append({"kind": "permutate", "n": n, "init": init, "permutate": True})
+    cases.extend(gen_histories(rng, 40 if thorough else 10))
     return cases
 
 
+def gen_histories(rng: random.Random, count: int):
+    """sequences of create_expressions / permutate_registered_topologies / register_topology on ONE adapter;
+    register_topology is also offered topologies over another final state (sub-decay, extra particle,
+    shifted ids), which the documented guards refuse."""
+    out = []
+    for c in range(count):
+        n = [3, 3, 4, 2, 4, 3][c % 6]
+        bases = create_isobar_topologies(n)
+        perms = list(itertools.permutations(range(n)))
+        same = lambda: variant(rng, rng.choice(bases), rng.choice(perms), 0)  # noqa: E731
+
+        def foreign():
+            m = rng.choice([k for k in (2, 3, 4) if k != n] + [n])
+            b = rng.choice(create_isobar_topologies(m))
+            if m == n:  # same size, other ids
+                return variant(rng, b, rng.choice(list(itertools.permutations(range(m)))), 1)
+            return topo_to_data(b) if rng.random() < 0.5 else \
+                variant(rng, b, rng.choice(list(itertools.permutations(range(m)))), 0)
+
+        init = [same() for _ in range(rng.randint(1, 2))]
+        if c == 0:
+            ops = [["create"], ["permutate"], ["create"]]
+        elif c == 1:
+            ops = [["create"], ["register", topo_to_data(create_isobar_topologies(2)[0])], ["create"],
+                   ["register", topo_to_data(create_isobar_topologies(4)[0])], ["create"]]
+            init = [topo_to_data(create_isobar_topologies(3)[0])]
+        else:
+            ops = []
+            for _ in range(rng.randint(3, 6)):
+                r = rng.random()
+                if r < 0.4:
+                    ops.append(["create"])
+                elif r < 0.55:
+                    ops.append(["permutate"])
+                elif r < 0.8:
+                    ops.append(["register", same()])
+                else:
+                    ops.append(["register", foreign()])
+            ops.append(["create"])
+        out.append({"kind": "history", "n": n, "init": init, "ops": ops, "permutate": False})
+    return out
+
+
 # ----------------------------------------------------------------------------- implementation side
+def abstract_dict(exprs):
+    memo, impl = {}, {}
+    for k, v in exprs.items():
+        name = str(k)
+        impl[name] = ["?", f"two different symbols print as {name}"] if name in impl else abstract(v, memo)
+    return impl
+
+
+def run_history_impl(case):
+    adapter = HelicityAdapter([data_to_topo(d) for d in case["init"]])
+    outcomes = []
+    for op in case["ops"]:
+        if op[0] == "create":
+            outcomes.append(["create", abstract_dict(adapter.create_expressions())])
+        elif op[0] == "permutate":
+            adapter.permutate_registered_topologies()
+            outcomes.append(["perm", len(adapter.registered_topologies)])
+        else:
+            try:
+                adapter.register_topology(data_to_topo(op[1]))
+                outcomes.append(["reg", 1, ""])
+            except ValueError as exc:
+                outcomes.append(["reg", 0, str(exc)[:80]])
+    return [topo_to_data(t) for t in adapter.registered_topologies], {"__history__": outcomes}
+
+
 def run_impl(case):
     """-> (ordered registered topologies as data, {name: abstract value}, registered set as data)"""
+    if case["kind"] == "history":
+        return run_history_impl(case)
     topos = [data_to_topo(d) for d in case["init"]]
     adapter = HelicityAdapter(topos[:1])
     for t in topos[1:]:
@@ -275,7 +347,22 @@ Definition model_create_expressions_repaired (ts : list rtopo) :=
 """
 
 
+def history_to_coq(idx: int, case) -> str:
+    ops = []
+    for op in case["ops"]:
+        ops.append({"create": "HCreate", "permutate": "HPermutate"}.get(op[0]) or f"HRegister ({topo_to_coq(op[1])})")
+    out = [f"Definition ini_{idx} : list rtopo := fold_left (fun acc t => add_topo t acc) ["
+           + ";\n  ".join(topo_to_coq(d) for d in case["init"]) + "] [].",
+           f"Definition ops_{idx} : list hop := [" + ";\n  ".join(ops) + "]."]
+    for what, fixed in ((3, "false"), (4, "true")):
+        out.append(f"Eval vm_compute in (({idx}), {what}, let r := run_history {fixed} ini_{idx} ops_{idx} in "
+                   "(map enc_topo (fst r), snd r)).")
+    return "\n".join(out) + "\n"
+
+
 def case_to_coq(idx: int, case, order) -> str:
+    if case["kind"] == "history":
+        return history_to_coq(idx, case)
     out = [f"Definition ord_{idx} : list rtopo := [" + ";\n  ".join(topo_to_coq(d) for d in order) + "]."]
     out.append(f"Eval vm_compute in (({idx}), 0, model_create_expressions ord_{idx}).")
     if any(has_double(d) for d in order):
@@ -305,6 +392,38 @@ def edge_set(d_or_enc):
     if isinstance(d_or_enc, dict):
         return frozenset((i, -99 if o is None else o, -99 if e is None else e) for i, o, e in d_or_enc["edges"])
     return frozenset(tuple(x) for x in d_or_enc)
+
+
+def compare_history(case, order, impl, model):
+    """model = (final registered topologies, per-op results) of Kin.run_history"""
+    if model is None:
+        return [("tie_model_output_missing", "no model output for the history")]
+    final, results = model
+    ops = case["ops"]
+    for k, (op, got, exp) in enumerate(zip(ops, impl["__history__"], results)):
+        where = f"history op {k} of {[o[0] for o in ops]}"
+        if got[0] == "reg":
+            want = exp[0][1][0][0]
+            if got[1] != want:
+                edges = op[1]["edges"]
+                return [("tie_history_register_mismatch",
+                         f"{where}: register_topology {'accepted' if got[1] else 'refused (' + got[2] + ')'} the topology "
+                         f"{edges}, the documented guards (isobar, same initial and final state ids as the registered "
+                         f"topologies) {'accept' if want else 'refuse'} it")]
+        elif got[0] == "perm":
+            if got[1] != exp[0][1][0][0]:
+                return [("tie_permutate_mismatch", f"{where}: {got[1]} registered topologies, model {exp[0][1][0][0]}")]
+        else:
+            fs = _compare(case, order, got[1], exp, None)
+            if fs:
+                sig, what = fs[0]
+                if sig == "tie_value_mismatch":
+                    sig = "tie_history_create_mismatch"
+                return [(sig, f"{where}: create_expressions() is not the dictionary of the registered set: {what}")]
+    if {edge_set(t) for t in final} != {edge_set(d) for d in order}:
+        return [("tie_history_registered_mismatch",
+                 f"registered_topologies after the history: model {len(final)} vs implementation {len(order)}")]
+    return []
 
 
 def compare(case, order, impl, model_dict, model_perm, model_other=None, repaired=False):
@@ -391,6 +510,20 @@ def main():
         for idx, r in enumerate(recs):
             if r["impl"] is None:
                 continue
+            if r["case"]["kind"] == "history":
+                fs = compare_history(r["case"], r["order"], r["impl"], parsed.get((idx, 4 if repaired else 3)))
+                n_vars += sum(len(o[1]) for o in r["impl"]["__history__"] if o[0] == "create")
+                if not fs:
+                    n_ok += 1
+                    if "history" not in seen:
+                        seen.add("history")
+                        samples.append({"kind": "history", "n": r["case"]["n"], "edges": r["case"]["init"][0]["edges"],
+                                        "ops": [o[0] for o in r["case"]["ops"]],
+                                        "outcomes": [o[:2] if o[0] != "create" else ["create", len(o[1])]
+                                                     for o in r["impl"]["__history__"]]})
+                for sig, what in fs:
+                    failures.append({"signature": sig, "what": what, "case": r["case"], "input": sig != "tie_unparsed"})
+                continue
             if (idx, 0) not in parsed:
                 failures.append({"signature": "tie_model_output_missing", "what": f"case {idx}: no model output",
                                  "case": r["case"], "input": False})
@@ -423,8 +556,11 @@ def main():
         repaired = len(sys.argv) > 3 and sys.argv[3] == "repaired"
         r = json.load(open(os.path.join(outdir, "one.json")))
         parsed = parse_coq_output(open(os.path.join(outdir, "Case_one.out")).read())
-        fs = compare(r["case"], r["order"], r["impl"], parsed.get((0, 0)), parsed.get((0, 1)),
-                     parsed.get((0, 2)), repaired)
+        if r["case"]["kind"] == "history":
+            fs = compare_history(r["case"], r["order"], r["impl"], parsed.get((0, 4 if repaired else 3)))
+        else:
+            fs = compare(r["case"], r["order"], r["impl"], parsed.get((0, 0)), parsed.get((0, 1)),
+                         parsed.get((0, 2)), repaired)
         print(json.dumps({"still_fails": bool(fs), "failures": fs[:3]}))
 
 
